@@ -10,11 +10,11 @@ translator; (2) every recorded leg of every traced run replayed in the Lean acti
 effect footprints) evaluated on every recorded commit.
 Oracle: `runs.oracle_c09` (the property statement on recorded runs) on every trace; for a wiring whose obligation is broken
 additionally on 3–6 more runs of that configuration (more seeds, more particles, larger leg cap)."""
-from harness import runs, runcommon, actcorr, translate, fpcorr, fpcorr2, fpcorr3, sysinvcorr
+from harness import runs, runcommon, actcorr, translate, fpcorr, fpcorr2, fpcorr3, sysinvcorr, poolcorr
 
 ID = "C09"
 NEEDS_GEN = True
-THEOREM_MODULES = ["JF.Props.C09", "JF.Props.Footprints", "JF.Props.Footprints2", "JF.Props.SystemInv", "JF.Props.SystemInv2", "JF.Props.Footprints3", "JF.Props.SystemInv3", "JF.Gen.WiringsSound"]
+THEOREM_MODULES = ["JF.Props.C09", "JF.Props.Footprints", "JF.Props.Footprints2", "JF.Props.SystemInv", "JF.Props.SystemInv2", "JF.Props.Footprints3", "JF.Props.SystemInv3", "JF.Props.C09Pools", "JF.Gen.WiringsSound"]
 COMPONENTS = ["act"]
 ASSUMPTIONS = [
     "footprint tables (JF/Model/Wiring.lean: `affects`, `reads`) are hypotheses of the link theorem (`FootprintsSound`); for point-mass "
@@ -49,6 +49,12 @@ def run(ctx, which=WHICH, oracle=None, per_trace=None):
     actcorr.unit_level(ctx, ctx.n(1500, 20000))
     jobs = runcommon.fix_pools(runcommon.job_list(ctx), ctx.root)
     if which == "C09":
+        # last clause of C09 (handlers demanded never exceed the pool): the real cell taggers' yield counts vs the model counts and the
+        # proved bounds on harness-built (random and crowded) occupancies; shipped pool-vs-bound table (JF.Props.C09Pools)
+        try:
+            poolcorr.check(ctx)
+        except Exception as e:  # noqa
+            ctx.disagree("pool.check", {}, "evaluated", repr(e))
         # coulomb_atoms cell runs that also record the occupancy at every leg (premise of JF.Props.Footprints, harness/fpcorr.py)
         jobs = jobs + runcommon.fix_pools(fpcorr.occupancy_jobs(ctx), ctx.root)
         # composite objects WITH cell systems (the six shipped wirings + variants with more molecules), occupancies recorded at every
@@ -120,6 +126,10 @@ def run(ctx, which=WHICH, oracle=None, per_trace=None):
                 fpcorr3.check_trace(ctx, tr, w)     # composite objects with cell systems: the world of JF.Props.Footprints3
             except Exception as e:
                 ctx.disagree("fp3.check-trace", {"ini": meta["ini"], "job": tr.get("job")}, "evaluated", repr(e))
+            try:
+                poolcorr.check_trace(ctx, tr, w)    # maximum demand per tagger on the run vs its pool
+            except Exception as e:
+                ctx.disagree("pool.check-trace", {"ini": meta["ini"], "job": tr.get("job")}, "evaluated", repr(e))
             try:
                 sysinvcorr.check_trace(ctx, tr)     # hypotheses of JF.Props.SystemInv (CandOK, TieFree) measured on the run
             except Exception as e:
